@@ -181,6 +181,7 @@ pub fn lanes_for(prop: &str, tier: &str, seed: u64) -> Vec<Scenario> {
             v.extend(gen_cli::lane_cli_report_bytes(seed));
             v.extend(gen_cli::lane_pairing(seed));
             v.extend(gen_cli::lane_script_partial(seed));
+            v.extend(gen_cli::lane_detached_in_a_row(seed));
             // megabytes in several read rounds, then a limit that expires: what was captured is
             // the beginning of what was written
             v.extend(gen_cli::lane_flood(seed).into_iter().filter(|s| s.check.iter().any(|c| c == "C13")));
@@ -204,6 +205,9 @@ pub fn lanes_for(prop: &str, tier: &str, seed: u64) -> Vec<Scenario> {
             v.extend(gen_cli::lane_skip_interplay(seed));
             v.extend(gen_cli::lane_summary(seed, if thorough { 1 } else { 3 }));
             v.extend(gen_cli::lane_closed_stderr(seed));
+            // runs in which a document times out (after a detached test case, in an included
+            // document ...): who is reported as skipped then
+            v.extend(gen_cli::lane_runs(seed).into_iter().filter(|s| s.lane.contains("timeout")));
             v.extend(gen_cli::lane_random(Tier::Lib, seed, n_rand_lib, "C15"));
             v.extend(gen_cli::lane_random(Tier::Cli, seed, n_rand_cli, "C15"));
         }
@@ -236,6 +240,8 @@ pub fn lanes_for(prop: &str, tier: &str, seed: u64) -> Vec<Scenario> {
             v.extend(gen_cli::lane_closed_stderr(seed));
             v.extend(gen_cli::lane_cli_fates(seed, if thorough { 1 } else { 4 }));
             v.extend(gen_cli::lane_cli_timing(seed, if thorough { 2 } else { 8 }));
+            v.extend(gen_cli::lane_closed_stdout(seed));
+            v.extend(gen_cli::lane_detached_in_a_row(seed));
             v.extend(gen::lane_fates(Tier::Lib, seed));
             v.extend(gen_cli::lane_random(Tier::Cli, seed, n_rand_cli * 2, "C20"));
         }
@@ -244,6 +250,9 @@ pub fn lanes_for(prop: &str, tier: &str, seed: u64) -> Vec<Scenario> {
             std::process::exit(2);
         }
     }
+    // scrut started in an environment with variables named after its options, or a stale PWD
+    let he: Vec<Scenario> = gen_cli::lane_host_env(seed, prop).into_iter().filter(|s| s.check.iter().any(|c| c == prop)).collect();
+    v.extend(he);
     v
 }
 
